@@ -216,7 +216,7 @@ def _init():
 
 
 # ---- program generation (descriptors only; JSON) ------------------------------------------------
-LIB_OPS = ["exact_predict", "hetero_predict", "svgp_predict_fantasy", "ciq_predict", "cylindrical_kernel", "lazy_kernel_ops"]
+LIB_OPS = ["exact_predict", "hetero_predict", "svgp_predict_fantasy", "ciq_predict", "cylindrical_kernel", "lazy_kernel_ops", "keops_kernel"]
 
 
 def _lib_build(op):
@@ -277,6 +277,20 @@ def _lib_build(op):
         k = K.CylindricalKernel(3, K.MaternKernel()).double()
         xb = X / X.norm(dim=-1, keepdim=True).clamp_min(1e-3) * 0.5
         return lambda: (k(xb).to_dense(), k(xb, diag=True))
+    if op == "keops_kernel":
+        # a KeOps kernel (without pykeops installed it falls back to the plain kernel, with a warning)
+        import warnings
+
+        from gpytorch.kernels import keops
+
+        k = keops.RBFKernel().double()
+
+        def run_k():
+            with warnings.catch_warnings():
+                warnings.simplefilter("ignore")
+                return k(X).to_dense(), k(X, xs).to_dense()
+
+        return run_k
     if op == "lazy_kernel_ops":
         k = K.ScaleKernel(K.RBFKernel()).double()
         return lambda: (k(X)[..., :3, 1:].to_dense(), k(X).diagonal(dim1=-1, dim2=-2), k(X, xs).transpose(-1, -2).to_dense(), k(X) @ y.unsqueeze(-1))
